@@ -128,7 +128,7 @@ def nontrivial_key(op, result):
     elif w[0] in ("dest", "log", "policy") and len(w) > 1:
         sub = w[1]
     sig = ""
-    if w[0] in ("send", "sendname", "macro", "sweep") and r and r[0] == "ok":
+    if w[0] in ("send", "sendname", "macro", "macroname", "sweep") and r and r[0] == "ok":
         vals = [x.split("=", 1)[1] for x in r[1:] if "=" in x]
         got = [any(ch != "0" for ch in v) for v in vals]
         sig = "nodest" if not vals else "none" if not any(got) else "all" if all(got) else "some"
@@ -266,9 +266,9 @@ def judge(prop, case, impl, model):
                     want = ref.set_filter(ds[0][1], w[2], w[3]) if ds else "throw runtime_error"
                 else:
                     want = ref.set_filter(l[2], w[2], w[3])
-            elif w[0] in ("send", "sendname", "macro"):
+            elif w[0] in ("send", "sendname", "macro", "macroname"):
                 lv, cl = int(w[2]), int(w[3])
-                if w[0] == "sendname":
+                if w[0] in ("sendname", "macroname"):      # C14_macro_single_name: the macro delivers like the send
                     first = ref.log(w[1])
                     sel = lambda l: l is first
                 else:
@@ -432,7 +432,8 @@ def random_case(rng, cid):
         elif r < 0.90:
             lines.append("macro %d %d %d" % (idset(), rng.randint(0, 6), rng.randint(0, 6)))
         elif r < 0.94:
-            lines.append("sendname %s %d %d" % (rng.choice(LOGS), rng.randint(0, 6), rng.randint(0, 6)))
+            lines.append("%s %s %d %d" % (rng.choice(["sendname", "macroname"]), rng.choice(LOGS), rng.randint(0, 6),
+                                           rng.randint(0, 6)))
         elif r < 0.97:
             lines.append("precheckname %s %d" % (rng.choice(LOGS), rng.randint(0, 6)))
         else:
